@@ -287,8 +287,13 @@ def Hunk.addPlain (h : Hunk) (c : Char) (lines : List Line) : Hunk :=
     rightSize := h.rightSize + (if c ≠ '-' then lines.length else 0)
     body := h.body ++ lines.map (fun l => (c, l)) }
 
+/-- decimal digits (`%v` of an int ≥ 0) -/
+def natText (n : Nat) : List Char := Nat.toDigits 10 n
+
+/-- `fmt.Sprintf("  ... %v lines skipped ...", skipped)` -/
 def skippedMarker (skipped : Nat) : Line :=
-  "  ... ".toList ++ (toString skipped).toList ++ " lines skipped ...".toList
+  [' ', ' ', '.', '.', '.', ' '] ++ natText skipped ++
+    [' ', 'l', 'i', 'n', 'e', 's', ' ', 's', 'k', 'i', 'p', 'p', 'e', 'd', ' ', '.', '.', '.']
 
 /-- `hunk.add` -/
 def Hunk.add (h : Hunk) (c : Char) (lines : List Line) : Hunk :=
@@ -362,12 +367,10 @@ def joinLines : List Line → List Char
   | [l] => l
   | l :: ls => l ++ '\n' :: joinLines ls
 
-def natText (n : Nat) : List Char := (toString n).toList
-
 /-- `hunk.writeTo` -/
 def renderHunk (h : Hunk) : List Char :=
-  "@@ -".toList ++ natText h.leftLine ++ [','] ++ natText h.leftSize ++ " +".toList ++
-    natText h.rightLine ++ [','] ++ natText h.rightSize ++ " @@\n".toList ++
+  ['@', '@', ' ', '-'] ++ natText h.leftLine ++ [','] ++ natText h.leftSize ++ [' ', '+'] ++
+    natText h.rightLine ++ [','] ++ natText h.rightSize ++ [' ', '@', '@', '\n'] ++
     h.body.flatMap (fun p => p.1 :: p.2 ++ ['\n'])
 
 def renderHunks (hs : List Hunk) : List Char := hs.flatMap renderHunk
@@ -442,13 +445,13 @@ def stripPrefix (p : List Char) (l : List Char) : Option (List Char) :=
 
 /-- `@@ -l,s +r,t @@` -/
 def parseHeader (l : Line) : Option (Nat × Nat × Nat × Nat) := do
-  let r ← stripPrefix "@@ -".toList l
+  let r ← stripPrefix ['@', '@', ' ', '-'] l
   let (l1, r) ← splitAtChar ',' r
   let (s1, r) ← splitAtChar ' ' r
   let r ← stripPrefix ['+'] r
   let (l2, r) ← splitAtChar ',' r
   let (s2, r) ← splitAtChar ' ' r
-  if r ≠ "@@".toList then none
+  if r ≠ ['@', '@'] then none
   pure (← parseNatChars l1, ← parseNatChars s1, ← parseNatChars l2, ← parseNatChars s2)
 
 /-- Lines of the rendered diff → hunks. A line starting with `@` opens a hunk; other lines must
